@@ -34,9 +34,14 @@ type Oblig struct {
 	Params []Val
 	FnObj  *ssa.Function
 	Spec   *FuncSpec
+	// postconditions only: the symbolic results and the heaps at entry / at the return (for pinning real outputs)
+	Rets      []Val
+	EntryHeap map[string]Term
+	ExitHeap  map[string]Term
 }
 
 type Runner struct {
+	curRets  []Val // results of the return being checked (set by finish)
 	prog     *ssa.Program
 	specs    *SpecSet
 	obligs   []*Oblig
@@ -160,6 +165,16 @@ func (r *Runner) oblige(st *State, kind, label string, goal Term, pos token.Pos)
 		Pos: posOf(st.top().fn, pos), Trail: strings.Join(st.trail, ","), Expect: "unsat", FnObj: r.curFn, Spec: r.curSpec}
 	if len(st.frames) > 0 {
 		o.Params = st.frames[0].params
+		if e := st.frames[0].entry; e != nil {
+			o.EntryHeap = e.heap
+		}
+	}
+	if kind == "post" && r.curRets != nil {
+		o.Rets = r.curRets
+		o.ExitHeap = make(map[string]Term, len(st.heap))
+		for k, v := range st.heap {
+			o.ExitHeap[k] = v
+		}
 	}
 	if r.curSpec != nil {
 		o.Props = clauseProps(label, r.curSpec.Props)
